@@ -97,6 +97,10 @@ def work(task):
     m = st.model
     W, H = m.width, m.height
     t = st.table
+    from ..models import tableread as TR
+
+    colstyles = TR.column_styles(t._Element__element)
+    colstyles += [None] * (W - len(colstyles))
 
     def fail(method, form, exp, act, symptom, cls=""):
         fails.append({"signature": f"site=Table.{method}; class=form={form}{cls}; symptom={symptom}",
@@ -169,9 +173,9 @@ def work(task):
     for x in range(W):
         for form, arg in (("int", x), ("str", my_alpha(x)), ("str-lower", my_alpha(x).lower()), ("neg", x - W)):
             nev += 1
-            r = call(lambda: t.get_column(arg).x)
-            if r != ("ok", x):
-                fail("get_column", form, ("ok", x), r, "form-disagrees")
+            r = call(lambda: (lambda cc: (cc.x, cc.style))(t.get_column(arg)))
+            if r != ("ok", (x, colstyles[x])):
+                fail("get_column", form, ("ok", (x, colstyles[x])), r, "form-disagrees")
             r = call(lambda: t.get_column_values(arg))
             if r != ("ok", m.column_values(x)):
                 fail("get_column_values", form, ("ok", m.column_values(x)), r, "form-disagrees")
@@ -196,9 +200,10 @@ def work(task):
             r = call(lambda: [rr.y for rr in t.get_rows(coord)])
             if r != ("ok", list(range(y, tt + 1))):
                 fail("get_rows", form, ("ok", list(range(y, tt + 1))), r, "not-bounded-by-range", f",{inner}")
-            r = call(lambda: [cc.x for cc in t.get_columns(coord)])
-            if r != ("ok", list(range(x, z + 1))):
-                fail("get_columns", form, ("ok", list(range(x, z + 1))), r, "not-bounded-by-range", f",{inner}")
+            r = call(lambda: [(cc.x, cc.style) for cc in t.get_columns(coord)])
+            expc = ("ok", [(i, colstyles[i]) for i in range(x, z + 1)])
+            if r != expc:
+                fail("get_columns", form, expc, r, "not-bounded-by-range" if r[0] == "ok" and [a for a, _ in r[1]] != [a for a, _ in expc[1]] else "not-the-columns-of-the-range", f",{inner}")
             # set_values(coord=area): upper-left corner is used
             s2 = build()
             try:
@@ -216,12 +221,16 @@ def work(task):
             s = f"{my_alpha(x)}:{my_alpha(z)}"
             nev += 2
             inner = "inner" if z < W - 1 else "to-end"
-            r = call(lambda: [cc.x for cc in t.get_columns(s)])
-            if r != ("ok", list(range(x, z + 1))):
-                fail("get_columns", "str-partial", ("ok", list(range(x, z + 1))), r, "not-bounded-by-range", f",{inner}")
-            r = call(lambda: [cc.x for cc in t.get_columns((x, z))])
-            if r != ("ok", list(range(x, z + 1))):
-                fail("get_columns", "pair", ("ok", list(range(x, z + 1))), r, "not-bounded-by-range", f",{inner}")
+            expc = ("ok", [(i, colstyles[i]) for i in range(x, z + 1)])
+            r = call(lambda: [(cc.x, cc.style) for cc in t.get_columns(s)])
+            if r != expc:
+                fail("get_columns", "str-partial", expc, r, "not-the-columns-of-the-range", f",{inner}")
+            r = call(lambda: [(cc.x, cc.style) for cc in t.get_columns((x, z))])
+            if r != expc:
+                fail("get_columns", "pair", expc, r, "not-the-columns-of-the-range", f",{inner}")
+            r = call(lambda: [(cc.x, cc.style) for cc in t.get_columns((x - W, z - W))])
+            if r != expc:
+                fail("get_columns", "pair-negative", expc, r, "not-the-columns-of-the-range", f",{inner}")
             for y in range(H):
                 r = call(lambda: t.get_row(y).get_values(s))
                 exp = ("ok", m.rows[y][x : z + 1])
